@@ -1,6 +1,7 @@
 import SJ.Drv.C18
 import SJ.Drv.C01
 import SJ.Drv.C10
+import SJ.Drv.C12
 import SJ.Drv.C05
 /-!
 `sjdriver` — reads case lines `op args… => impl-observation` on stdin, runs the Lean model and the
@@ -16,6 +17,7 @@ def allHandlers : List (String × Handler) :=
     C18.handlers,
     C01.handlers,
     C10.handlers,
+    C12.handlers,
     C05.handlers,
   ]
 
